@@ -116,6 +116,7 @@ CHECKS = {
         assumptions=["fakepg/sim/model as for C01", "outcome values are checked where the head cache cannot blur them (completion, errors, progress); 'nothing new' may be reported while a cached head is still being served"],
         units=[
             R("TestC06_Range", 3200, 80000, shards=16),
+            R("TestC06_RangeWithReferences", 1600, 40000, shards=16),
         ],
     ),
     "C05": dict(
